@@ -5,21 +5,23 @@ What runs:
   2. Props/C15.v: totality of the model loader (proved for the repaired table, exact characterisation
      of the sites that refute it for the current table)
   3. T-corr: mutants of corpus stories -> serde's own parse of the text (loadfuzz `doc`) -> model
-     `run_load` (vm_compute) vs `Story::new` outcome of the std build (ok / err(BadJson) / panic@line)
+     `run_load` (vm_compute) vs `Story::new` outcome of the std build (ok / err(BadJson) / panic@line);
+     for a sample of the mutants BOTH sides accept, the loaded trees are compared object by object
+     (Json/AuditRun.v listing vs the content-audit hook: paths, kinds, values, flags, reference resolution)
   4. property-direct oracle on the implementation: both loader builds, story mutants and save mutants,
      each case isolated (panic hook + catch_unwind, crashing shards re-run case by case);
      after every load attempt of a save: reset_state + continue_maximally must equal a fresh story.
 Violation keys (stable):
   loader-panic-empty-array / -unwrap-type / -int-range / -named-content / -empty-string   (std loader, D14)
   stream-loader-panic-<class>, stream-loader-todo, deep-nesting-stack-overflow, loader-crash
-  story-new-engine-panic (panic outside the loaders while Story::new runs `global decl`)
-  save-load-panic-<file>, save-load-crash, failed-load-reset-differs
+  story-new-engine-panic:<file>:<fn> (panic outside the loaders while Story::new runs `global decl`)
+  save-load-panic-<file>:<fn>, save-load-crash, failed-load-reset-differs, failed-load-reset-fails
   loader-model-mismatch (no_input)
 """
 import collections, json, os, re, time
 import vlib, gen_tables
 import mutate_json as mj
-from props import common
+from props import common, c19_tree
 
 LEVEL = "proof"
 ASSUMPTIONS = [
@@ -90,8 +92,40 @@ WITNESS = {
 # sites of json_read.rs that no story document can reach (save-state helpers, guarded get)
 NON_STORY_SITES = {"objlist_skip_last", "choice_ocp_get", "hashmap_value", "int_hashmap_val"}
 
+# minimal `global decl` bodies that reach interpreter panic sites during Story::new (found by fuzzing)
+ENGINE_WITNESS = {
+    "pop_evaluation_stack": '{"VAR=":"x"}',
+    "pop_evaluation_stack_multiple": '"LIST_ALL"',
+    "push_evaluation_stack": '"ev",{"list":{},"origins":["nope"]}',
+    "get_origin_names": '"ev",{"list":{"a":2}}',
+    "variable_assignment_downcast": '"ev","void",{"VAR=":"x"}',
+    "pop_choice_string_and_tags": '"ev",2,{"*":".^.c","flg":18}',
+    "duplicate_peek": '["du",{}]',
+    "get_temporary_variable_with_name": '"ev",{"^var":"x"},{"VAR=":"x"}',
+}
+
 BOMB_TEMPLATE = '{"inkVersion":21,"root":[@@,"done",null],"listDefs":{}}'
 SAVE_BOMB_KEYS = ["evalStack", "outputStream", "variablesState", "visitCounts", "callstack"]
+
+
+_FN_CACHE = {}
+
+
+def enclosing_fn(site):
+    """'story_state.rs:898' -> 'story_state.rs:pop_evaluation_stack' (stable across line drift)"""
+    try:
+        f, line = site.rsplit(":", 1)
+        line = int(line)
+        if f not in _FN_CACHE:
+            _FN_CACHE[f] = vlib.repo_file("runtime/src/" + f).split("\n")
+        src = _FN_CACHE[f]
+        for k in range(min(line, len(src)) - 1, -1, -1):
+            m = re.match(r"\s*(?:pub(?:\([a-z]+\))?\s+)?(?:const\s+)?fn\s+(\w+)", src[k])
+            if m:
+                return f.split("/")[-1] + ":" + m.group(1)
+    except (ValueError, OSError):
+        pass
+    return site.split(":")[0].split("/")[-1]
 
 
 def site_key(site_id, prefix="loader-panic-"):
@@ -155,6 +189,18 @@ def story_cases(ctx, files):
             add(kind, t, rel)
         for kind, t in mj.byte_noise(txt, ctx.rng, nnoise):
             add(kind, t, rel)
+    # Story::new runs `global decl` through the interpreter: mutate inside it
+    gd = [f for f in files if '"global decl"' in read_story(f)]
+    for f in gd[:(8 if ctx.quick() else 40)]:
+        try:
+            doc = json.loads(read_story(f))
+        except ValueError:
+            continue
+        rel = os.path.relpath(f, common.INKFILES)
+        for kind, t in mj.structural(doc, ctx.rng, 30 if ctx.quick() else 150, focus=lambda p: "global decl" in p):
+            add("gd-" + kind, t, rel)
+    for name, x in ENGINE_WITNESS.items():
+        add("engine:" + name, '{"inkVersion":21,"root":[{"global decl":[%s,null]}],"listDefs":{}}' % x, "engine-witness")
     for kind, t in mj.random_text(ctx.rng, 40 if ctx.quick() else 400):
         add(kind, t, "random")
     depths = [5, 60, 126, 127, 128, 129, 500, 2000, 10000]
@@ -224,7 +270,7 @@ def run_story_side(ctx, cases, std_exe, stream_exe, facts):
         site = r.get("site") or ""
         in_loader = site.startswith("json/json_read.rs")
         if load == "panic" and not in_loader:
-            report("story-new-engine-panic",
+            report("story-new-engine-panic:" + enclosing_fn(site),
                    f"Story::new panics outside the loader at {site} ({(r.get('msg') or '')[:60]}) on a {c['kind']} mutant of {c['src']}",
                    payload)
             if m is not None and m != "ok":
@@ -251,6 +297,42 @@ def run_story_side(ctx, cases, std_exe, stream_exe, facts):
                 mismatches.append(dict(case=strip_case(c), impl=load, model=m))
         elif m != load:
             mismatches.append(dict(case=strip_case(c), impl=load, model=m))
+
+    # ---- documents both sides accept: compare the loaded TREES (audit listing of every object)
+    okidx = [i for i, r in enumerate(res_std) if r.get("load") == "ok" and model.get(i) == "ok"
+             and cases[i]["kind"] != "valid" and len(res_std[i].get("doc") or "") < 60000]
+    ctx.rng.shuffle(okidx)
+    okidx = sorted(okidx[:(80 if ctx.quick() else 2500)])
+    stats["tree_compared"] = 0
+    if okidx and model_err is None:
+        acases = [dict(cases[i], id="a%d" % i, want_doc=False, want_audit=True) for i in okidx]
+        ares = vlib.run_inkdrive(acases, std_exe, timeout=300)
+        try:
+            okb, logb = ctx.build(["theories/Json/AuditRun.vo"])
+            if not okb:
+                raise RuntimeError("AuditRun does not build: " + logb[-600:])
+            pre = "From Ink.Json Require Import StdLoad AuditRun.\n"
+            mouts = vlib.coq_eval_sharded(pre, [f"run_audit {res_std[i]['doc']}" for i in okidx],
+                                          shard=max(10, len(okidx) // (vlib.NPROC * 2) + 1), name="c15a")
+            for i, ar, mo in zip(okidx, ares, mouts):
+                stats["tree_compared"] += 1
+                ml = mo.split("\n")[1:]
+                ia = ar.get("audit")
+                if ia == "panic":
+                    # the hook panics while describing an object (origin-less list item): the model marks the line
+                    if not any(l.startswith("!panic") for l in ml):
+                        mismatches.append(dict(case=strip_case(cases[i]), impl="audit panics", model="no !panic line"))
+                    continue
+                if not isinstance(ia, list):
+                    continue
+                il = [c19_tree.canon_impl_line(l) for l in ia]
+                if il != ml:
+                    k = next((k for k, (a, b) in enumerate(zip(il, ml)) if a != b), min(len(il), len(ml)))
+                    mismatches.append(dict(case=strip_case(cases[i]), what="loaded tree differs", line=k,
+                                           impl=(il[k] if k < len(il) else "<end>")[:300],
+                                           model=(ml[k] if k < len(ml) else "<end>")[:300]))
+        except RuntimeError as e:
+            model_err = str(e)[-600:]
 
     # witnesses: every site that is on must panic in the model and on the implementation
     for i, c in enumerate(cases):
@@ -281,7 +363,8 @@ def run_story_side(ctx, cases, std_exe, stream_exe, facts):
                 key = "stream-loader-todo" if cls == "todo" else "stream-loader-panic-" + cls
                 report(key, f"streaming loader panics at {site} ({(r.get('msg') or '')[:50]}) on a {c['kind']} mutant of {c['src']}", payload)
             else:
-                report("story-new-engine-panic", f"Story::new (stream build) panics outside the loader at {site}", payload)
+                report("story-new-engine-panic:" + enclosing_fn(site),
+                       f"Story::new (stream build) panics outside the loader at {site}", payload)
         if (load == "ok") != (rs.get("load") == "ok") and load in ("ok", "err(BadJson)") and rs.get("load") in ("ok", "err(BadJson)"):
             diverge += 1
     stats["stream_vs_std_ok_err_divergence(C14)"] = diverge
@@ -378,7 +461,7 @@ def run_save_side(ctx, cases, exe, build):
             continue
         if load == "panic":
             site = r.get("site") or ""
-            f = site.split(":")[0].split("/")[-1]
+            f = enclosing_fn(site) if site else "unknown"
             report("save-load-panic-" + f, f"load_state panics at {site} ({(r.get('msg') or '')[:50]}) on a {c['kind']} mutant of a save of {c['src']}",
                    payload)
         if load not in ("ok", "panic") and not str(load).startswith("err("):
@@ -390,9 +473,14 @@ def run_save_side(ctx, cases, exe, build):
             elif r.get("after") != r.get("fresh"):
                 report("failed-load-reset-differs", f"after a failed load + reset the story does not play like a fresh one ({c['kind']} mutant, {c['src']})", payload)
         else:
-            # a successful load followed by reset must equal fresh as well (C17 overlap, cheap to check)
-            if r.get("reset") == "ok" and r.get("after") != r.get("fresh"):
-                stats["ok_load_reset_differs"] += 1
+            # a successful load followed by reset must equal fresh as well (C17 overlap; reported, not decided here)
+            if r.get("reset") != "ok" or r.get("after") != r.get("fresh"):
+                stats["ok_load_then_reset_differs"] += 1
+            pl = r.get("played") or {}
+            if pl.get("panic"):
+                # an accepted (semantically corrupt) save that makes the engine panic when played on:
+                # outside C15's statement (the load itself answered Ok), counted for the record
+                stats["accepted_save_then_play_panics:" + enclosing_fn(pl.get("site") or "?")] += 1
     return viol, stats
 
 
@@ -432,7 +520,7 @@ def run(ctx):
         stats.update(s3)
 
     lap("save_side")
-    kinds = collections.Counter(c["kind"].split(":")[0].rstrip("0123456789co") for c in cases)
+    kinds = collections.Counter(re.sub(r"^bomb.*", "bomb", c["kind"].split(":")[0]) for c in cases)
     ctx.coverage.update(dict(
         evaluations=2 * len(cases) + nmodel + len(scases) * (1 if ctx.quick() else 2),
         distinct_nontrivial=len(set(c["text"] for c in cases)) + len(set(c["save"] for c in scases)),
